@@ -121,7 +121,11 @@ func (root *Root) getObjType(gqlType string) (obj *Object, input *Input, err err
 			err = fmt.Errorf("%s %w or not an Object", gqlType, ErrNotFound)
 		}
 	} else {
-		root.assureSchema()
+		// Only a load derives an implied schema again, a registration takes
+		// the schema there is.
+		if root.schema == nil {
+			root.assureSchema()
+		}
 		obj = &root.schema.Object
 	}
 	return
@@ -1164,6 +1168,10 @@ func (root *Root) assureSchema() {
 		for _, fd := range root.schema.fields.list {
 			_ = schema.fields.add(fd)
 		}
+		// A Go type registered for the schema stays registered.
+		root.schema.mu.Lock()
+		schema.meta = root.schema.meta
+		root.schema.mu.Unlock()
 	}
 	for _, cap := range []string{"Query", "Mutation", "Subscription"} {
 		name := strings.ToLower(cap)
